@@ -35,9 +35,28 @@ def make_core(prop):
 
 LEVEL = {}
 CHECKS = {}
-for p in ("C02", "C05", "C08", "C16"):
+for p in ("C02", "C05", "C08"):
     CHECKS[p] = make_core(p)
     LEVEL[p] = "model_checking"
+
+
+def check_c16(out, tier, seed):
+    """core histories plus the topology catalogues (trees, cycles, self-links, hairpins, parallel,
+    containment-only and internal-only relations, isolated segments) with the clean-up operations
+    remove_small_components / remove_self_links as specified actions"""
+    mc = [("topo1", 3), ("topo2", 3), ("gfa1s", 3)] if tier == "quick" else \
+        [("topo1", 4), ("topo2", 4), ("gfa1s", 4), ("gfa2s", 4)]
+    from . import core as c
+    jobs = {}
+    nr = 150 if tier == "quick" else 3000
+    for cat in ("topo1", "topo2", "gfa1", "gfa2"):
+        jobs["doc-" + cat] = c.doc_jobs(cat, nr, 4, seed)
+    c.run_pipeline(out, jobs, mc, "C16")
+    out.assumptions += ["TLC; Components/N* operators of spec/Gfa.tla", "harness/project.py"]
+
+
+CHECKS["C16"] = check_c16
+LEVEL["C16"] = "model_checking"
 
 
 def check_c09(out, tier, seed):
